@@ -1013,6 +1013,22 @@ func (r *Runner) builtin(ctx context.Context, pos syntax.Pos, name string, args 
 			return failf(2, "%s: Only one array name may be specified, %v\n", name, args)
 		}
 
+		if r.stdin != nil {
+			// Like readLine, stop a blocked read when the context is cancelled.
+			stopc := make(chan struct{})
+			stop := context.AfterFunc(ctx, func() {
+				r.stdin.SetReadDeadline(time.Now())
+				close(stopc)
+			})
+			defer func() {
+				if !stop() {
+					// The AfterFunc was started.
+					// Wait for it to complete, and reset the file's deadline.
+					<-stopc
+					r.stdin.SetReadDeadline(time.Time{})
+				}
+			}()
+		}
 		var vr expand.Variable
 		vr.Kind = expand.Indexed
 		scanner := bufio.NewScanner(r.stdin)
